@@ -17,32 +17,32 @@ def analog_stubs():
     rows: list = []
     calls = {"stub": 0}
 
-    def tr(state):
+    def tr(state, *xa, **xk):
         if not hasattr(state, "_trace"):
             state._trace = []
         return state._trace
 
-    def u(state, h, p):
+    def u(state, h, p, *xa, **xk):
         calls["stub"] += 1
         tr(state).append("U")
 
-    def d(state, nm, dt, p):
+    def d(state, nm, dt, p, *xa, **xk):
         calls["stub"] += 1
         r = dt / p.dt
         tr(state).append("Dh" if r == 0.5 else ("D1" if r == 1.0 else f"D?{r}"))
 
-    def sp(state, nm, dt, p, rng=None):
+    def sp(state, nm, dt, p, rng=None, *xa, **xk):
         calls["stub"] += 1
         tr(state).append("J")
         return state
 
-    def sj(state, nm, time, p):
+    def sj(state, nm, time, p, *xa, **xk):
         calls["stub"] += 1
         idx = [i for i, t in enumerate(p.times) if t == time]
         tr(state).append(("S", idx[0] if len(idx) == 1 else -1))
         return state
 
-    def ev(self, p, results, column_index=0):
+    def ev(self, p, results, column_index=0, *xa, **xk):
         rows.append((int(column_index), list(tr(self))))
 
     A.local_dynamic_tdvp, A.bug, A.apply_dissipation, A.stochastic_process, A.apply_scheduled_jumps = u, u, d, sp, sj
